@@ -59,7 +59,8 @@ CLAIMED = {
              'evaluation performed under a non-false flag (19 sites) has its result returned unchanged by its caller (never unwrapped, matched or '
              'stored), the flag being the caller\'s own parameter applied to its own scope and argument slice; the trampoline consumes TailCall by '
              'looping; eval_func_with_values cannot hand its flag to user code; every documented short-circuit parameter that is returned unchanged '
-             'is evaluated with the flag (so tail self-calls under carriers consume no depth). Together: a TailCall is produced only for a self-call '
+             'is evaluated with the flag (so tail self-calls under carriers consume no depth). A tail iteration re-enters through the same gate as an ordinary call (its argument vector passes the erroring-argument test before the '
+             'frame is built). Together: a TailCall is produced only for a self-call '
              'in tail position and is consumed only by the trampoline of that same function. NOT decided by execution: numeric equality of results.',
         note='Trusted: rustc MIR; the book as the list of documented short-circuit functions. Literal-true flag sites are listed with reasons in rules/c07.py.',
         technique='static analysis: flag/value provenance dataflow, dominating-condition extraction, forward result-flow (tail-position) check on resolved MIR',
@@ -71,8 +72,8 @@ CLAIMED = {
              'already committed to returning a violation) nor handed to a discarding combinator (ok, is_ok, unwrap_or, ...): after drop '
              'elaboration a swallowed violation necessarily shows up as such a drop or call, so this is exact for "a violation value is '
              'discarded"; (2) the same for error values, where dropping/inspecting is allowed only inside the documented handlers '
-             '(is_error, if_error, get_error) or when a clone was forwarded; (3) the user-call path returns the leftmost erroring argument '
-             'before building a frame; (4) by element types, collections cannot hold errors. NOT decided: the leftmost-error order among '
+             '(is_error, if_error, get_error) or when a clone was forwarded; (3) must-pass-through: every origin of the argument vector of a user call (the parameter, and the TailCall payload taken by the '
+             'trampoline) passes the erroring-argument test before from_template; (4) by element types, collections cannot hold errors. NOT decided: the leftmost-error order among '
              'several simultaneous errors beyond the argument-order rule of C02.',
         note='Trusted: rustc drop elaboration; the book as the list of handlers. Two exemptions with reasons in rules/c06.py (E_EXEMPT).',
         technique='static analysis: path-sensitive drop/linearity analysis (drop flags × discriminants) and combinator inventory on resolved MIR',
@@ -123,22 +124,24 @@ CLAIMED = {
              'two runtime-length lists in the type relations and call/construct typing is preceded by a length test on the same two lists (or '
              'listed with a confirmed reason) and its two sides iterate in the same direction; the hand-written type equality reads every '
              'typing-relevant field (incl. the return type of function types); the case tables of bind_in_assignment / common_type / eq agree '
-             'with the confirmed table. These rule out the accept-too-much failures (truncated comparison, ignored component, swapped '
+             'with the confirmed table; an already-bound generic parameter is re-bound only to the success payload of common_type(existing, new) '
+             '(MIR: every insert into bound_generics on the found side of a lookup of the same map). These rule out the accept-too-much failures (truncated comparison, ignored component, swapped '
              'component). NOT decided: completeness (every assignable program accepted) and least-common-type optimality.',
         note='Trusted: syn parse; the reasons in ZIP_OK / PAIR_TABLE_REASONS (rules/c04.py) were confirmed by reading.',
-        technique='static analysis: syntax-tree rules (guard-before-zip, field coverage of hand-written equality, sibling case-table agreement)',
+        technique='static analysis: syntax-tree rules (guard-before-zip, field coverage of hand-written equality, sibling case-table agreement); value-origin rule on resolved MIR (generic re-binding)',
         design='2/C04'),
     'C05': dict(
         level='other',
-        text='Order-independence and ambiguity detection of resolve_overload decided as dataflow facts on its syntax tree: the candidate loop '
+        text='Order-independence and ambiguity detection of resolve_overload decided as dataflow facts: the candidate loop '
              'carries state across iterations only by pushing to the tier vectors / the failure list; its only early exit is the documented '
-             'short-circuit stub; after the loop an element is taken only from a singleton tier, more than one is an AmbiguousOverload error, '
-             'tiers are consulted in rank order and the function ends in NoOverload; the tier of a candidate is a function of (is_generic, '
+             'short-circuit stub; the code after the loop is evaluated abstractly on the MIR for every (|exact|, |generic|) in {0,1,2,3}^2 and must reach exactly the '
+             'documented decision (take the single exact; ambiguity for >1 exact; else the single generic; ambiguity for >1 generic; else '
+             'NoOverload) whatever its syntactic form; the tier of a candidate is a function of (is_generic, '
              'is_unknown) and is_unknown of the argument types only; own overloads are appended before the parent\'s and never indexed by '
              'position. Hence the outcome depends only on the multiset of matching candidates. Known finding: dynamic candidates share the '
              'generic tier (R05.6). NOT decided: that spec.bind matches exactly the right candidates (C04).',
         note='Trusted: syn parse. One known finding listed in known_findings.json.',
-        technique='static analysis: loop-carried-state and early-exit analysis, post-loop decision-sequence extraction on the syntax tree',
+        technique='static analysis: loop-carried-state and early-exit analysis on the syntax tree; finite abstract evaluation of the post-loop decision table on resolved MIR',
         design='2/C05'),
     'C01': dict(
         level='other',
@@ -148,7 +151,8 @@ CLAIMED = {
              'downcasts equal to the declared parameter type class, constructed result variants equal to the declared primitive return type): '
              '~800 facts; every explicit panic of the evaluator listed with the checker obligation that discharges it; every checked unsigned '
              'subtraction in builtins guarded by a dominating comparison of the same operands or listed with a reason (and, where the reason is '
-             'a match arm, revalidated structurally); list-shaped owning links have an iterative Drop. NOT decided: soundness of the type rules '
+             'a match arm, revalidated structurally); list-shaped owning links have an iterative Drop; machine arithmetic on the small integer form that can overflow ((i64::MIN,-1), '
+             '-i64::MIN; operators and the division-family methods) is excluded by an earlier match arm. NOT decided: soundness of the type rules '
              'for all programs, absence of all panics (index/library panics, multiplication overflow).',
         note='Trusted: rustc MIR, syn; the reasons in EVAL_PANICS / SUB_OK (rules/c01.py). Three known findings (combinatorics on usize) in known_findings.json.',
         technique='static analysis: registration-vs-closure table agreement on the syntax tree; dominating-guard recognition on MIR asserts; panic inventory; ADT shape audit',
@@ -181,18 +185,19 @@ CLAIMED = {
         level='other',
         text='Structural clauses decided for every site: every FencedString literal keeps buffer and code-point table consistent (no reuse of '
              'the table over a re-encoded buffer; the case-mapping siblings agree); every native that calls substring/substr with an '
-             'argument-derived start tests it against the length first; byte offsets of &str/regex searches are converted to code-point counts '
-             'before being returned or used as indices; the escape table equals the book\'s list with validated \\u{..} scalars; raw strings '
+             'argument-derived start tests it against the length first; a unit analysis on the MIR (byte offsets vs code-point counts, origins walked backwards through statements, calls and closures) '
+             'shows that no byte offset reaches a code-point sink (substring/substr indices, padding widths, integers returned by the str and regex '
+             'natives) and no program-supplied index reaches a byte API (&str slicing, regex Input ranges) without conversion; the escape table equals the book\'s list with validated \\u{..} scalars; raw strings '
              'bypass unescaping while quoted and f-string text parts go through it. NOT decided: agreement of split/replace/strip/... (xray '
              'stdlib text) with code-point semantics.',
         note='Trusted: syn parse; the book (lang/string_literals.md).',
-        technique='static analysis: construction-site rules, guard-before-slice, unit (byte vs code point) discipline, table agreement with the book — on the syntax tree',
+        technique='static analysis: construction-site rules, guard-before-slice and table agreement with the book on the syntax tree; unit (byte vs code point) origin analysis on resolved MIR',
         design='2/C18'),
     'C10': dict(
         level='other',
         text='A loop inventory on resolved MIR: every natural loop (back edge) of the builtin and utility bodies (82) is classified as budgeted '
-             '(its iterator type contains the search budget), finite-structural (iterates an existing in-memory collection, a usize range or a '
-             'take(n)), or listed with a termination reason; inside the generator iterator every adaptor that can discard unboundedly many items '
+             '(structurally: the iterator is zipped with the search budget on every arm of every Either), finite-structural (iterates an existing '
+             'in-memory collection, a usize range or a take(n), and not the logical elements of a lazy sequence / generator), or listed with a termination reason; inside the generator iterator every adaptor that can discard unboundedly many items '
              'per step is over a finite outer, calls a user function per item (so the call limit bounds it) or is reported; generator consumption '
              'and core::search are zipped with the search budget and propagate its violation; the timeout gate has the shape deadline > now and '
              'dominates every user frame. One known finding (unbudgeted skip). NOT decided: wall-clock bounds, cost of library calls, loops over '
@@ -215,10 +220,11 @@ CLAIMED = {
         level='other',
         text='Re-iterability follows from the immutability audit plus _iter(&self) never writing through self; laziness is decided as the absence '
              'of absorbing adaptors (collect, count, last, fold, ...) on inner generator iterators anywhere in the _iter family; the slice '
-             'dimensions are consistent between the merging constructor (absolute end, inner start added) and the consumer (skip(start), '
-             'take(end - start)). NOT decided: element-wise agreement with list pipelines.',
+             'dimensions are decided by path-sensitive dependences on the MIR: on every path the merged start depends on inner start and start, the '
+             'merged end depends on the new end + inner start whenever the new end may exist and on the inner end whenever it may exist, and the '
+             'consumer takes a count depending on stored end and start and skips the stored start. NOT decided: element-wise agreement with list pipelines.',
         note='Trusted: rustc MIR, syn parse, laziness of std iterator adaptors.',
-        technique='static analysis: immutability audit, adaptor inventory over the iterator-construction bodies (MIR), producer/consumer agreement (syntax tree)',
+        technique='static analysis: immutability audit, adaptor inventory over the iterator-construction bodies, path-sensitive dependence analysis of the slice dimensions — all on resolved MIR',
         design='2/C16'),
     'C19': dict(
         level='other',
@@ -226,9 +232,11 @@ CLAIMED = {
              'ne = !eq, xcmp = -1/0/1); tuple derivations pair components by one forward zip after an arity test and stop at the first deciding '
              'component; and a typestate check of the unsafe fallible merge sort / heap on MIR: every bitwise duplication is followed by the '
              'construction of a Drop guard before any comparator call or return, guards implement Drop and are never forgotten - so a comparator '
-             'failing midway loses or duplicates no element. NOT decided: equivalence / total-order laws, format-specifier semantics, that the sort sorts.',
+             'failing midway loses or duplicates no element; the natural-run detection of the merge sort extends a reversed run while is_less and a '
+             'kept run while !is_less (contradiction rule); format padding is computed from code-point counts (unit analysis). NOT decided: '
+             'equivalence / total-order laws, the rest of the format-specifier semantics, full functional correctness of the sort.',
         note='Trusted: rustc MIR, syn parse.',
-        technique='static analysis: table agreement on the syntax tree; typestate (duplicate -> guard -> compare) on resolved MIR of the unsafe utilities',
+        technique='static analysis: table agreement and a sibling-contradiction rule on the syntax tree; typestate (duplicate -> guard -> compare) and unit-origin analysis on resolved MIR',
         design='2/C19'),
 }
 
